@@ -59,19 +59,12 @@ def parseOp (p : Nat) (s : String) : Option (Op p) :=
     (parseList (toFin p) ((s.drop 1).toString) ".").map .removeAll
   else none
 
-/-- model trace: one observation per op.  `gated` = end-to-end mode (`updateGated`) -/
-def trace {p : Nat} (gated : Bool) (sh : Sh p) : World p → Bool → List (Op p) → List Obs
-  | _, _, [] => []
-  | w, committed, op :: ops =>
-    let w' := match op, gated with
-      | .update, true => updateGated sh committed w
-      | _, _ => step sh w op
-    let committed' := match op with
-      | .update => true
-      | .commit => true
-      | .clear => false
-      | _ => committed
-    obsOf sh w' :: trace gated sh w' committed' ops
+/-- model trace: one observation per op.  `gated` = end-to-end mode (`stepG`: the whole `HAProxyUpdate`) -/
+def trace {p : Nat} (gated : Bool) (sh : Sh p) : GWorld p → List (Op p) → List Obs
+  | _, [] => []
+  | g, op :: ops =>
+    let g' : GWorld p := if gated then stepG sh g op else { g with w := step sh g.w op }
+    obsOf sh g'.w :: trace gated sh g' ops
 
 def isUpdate {p : Nat} : Op p → Bool
   | .update => true
@@ -132,7 +125,7 @@ def handle (args : List String) (impl : String) : Verdict :=
         if impl = "PANIC" || impl.startsWith "PANIC" then
           { model := "-", agree := false, oracle := some "panic-in-backends-api" }
         else
-        let tr := trace (mode == "e2e") sh {} false ops
+        let tr := trace (mode == "e2e") sh {} ops
         let m := ";".intercalate (tr.map showObs)
         let disc := disciplined sh ops
         match (impl.splitOn ";").mapM parseObs with
